@@ -418,3 +418,9 @@ def c06_6(run):
         if not nret:
             raise Inconclusive(f'vacuity: no Ok path for n={n}')
     run.require_reached(*run.cur.reach)
+
+
+# ----------------------------------------------------------------------------------------------------------------- C06-7 / C06-8 (honest proposals survive post-execution; shared with C07-1 / C07-4)
+from obligations import c07 as _c07
+obligation('C06', 'C06-7 the commitments PrepareProposal generates are the canonical ones (rollups in ascending id order, submissions then deposits): exactly what the block builder recomputes after execution, so an honest proposal is not rejected there (= C07-1)')(_c07.c07_1)
+obligation('C06', 'C06-8 the block builder used after executing a proposal accepts exactly the canonical commitments (= C07-4)')(_c07.c07_4)
